@@ -238,6 +238,17 @@ Theorem C04_filter_pass_establishes_cut : forall mnc subst cut bad s,
   let s' := filter_pass mnc subst cut bad s in sstep s' (SCut mnc) = Some s'.
 Proof. exact filter_pass_establishes_cut. Qed.
 Print Assumptions C04_filter_pass_establishes_cut.
+(* whatever filter_transcripts removes - in either pass, by substitution, coverage or the MAPQ test of models with <= 2 exons - takes its rows with
+   it: afterwards every row of the read table still names a stored model (for all oracles) *)
+Theorem C04_filter_transcripts_keeps_table_consistent : forall ops s mnc subst1_ cut bad subst2, srun store0 ops = Some s ->
+  let s' := filter_transcripts_model mnc subst1_ cut bad subst2 s in
+  forall t r, In (t, r) (rtab s') -> In t (ids s').
+Proof. exact filter_transcripts_keeps_table_consistent. Qed.
+Print Assumptions C04_filter_transcripts_keeps_table_consistent.
+(* a two-exon novel model whose mean MAPQ falls below the cut-off after re-assignment disappears with its three rows; the other model keeps its own *)
+Example ex_filter_mapq : exists s, srun store0 [SAdd 1 true; SSave 1 10; SSave 1 11; SAdd 2 true; SSave 2 20; SAssign 12 [1]] = Some s /\
+  ids (filter_transcripts_model 1 [] (fun _ => 0) (fun t => t =? 1) [] s) = [2] /\ rtab (filter_transcripts_model 1 [] (fun _ => 0) (fun t => t =? 1) [] s) = [(2, 20)].
+Proof. eexists. vm_compute. repeat split. Qed.
 (* ... and from then on (second assign_reads_to_models, later deletions) every reported novel model has at least one row *)
 Theorem C04_reported_model_has_reads : forall pre mnc post s, 1 <= mnc -> forallb late_op post = true ->
   srun store0 (pre ++ SCut mnc :: post) = Some s -> forall t, In (t, true) (models s) -> 1 <= nreads s t.
